@@ -66,11 +66,17 @@ def run(res, facts, tier):
 
     r2 = res.rule('C01-R2', 'every XSLT 1.0 instruction token has a constructing case in StylesheetHandler::startElement (inside templates) and in '
                   'StylesheetConstructionContextDefault::createElement; every top-level element token has a non-error case in processTopLevelElement', floor=50)
+    def token_switch(fn_ast):
+        """the switch over element tokens: the one with the most ELEMNAME_ case labels (whatever the switched variable is called)"""
+        best, bn = None, 0
+        for x in walk(fn_ast['body']):
+            if x['k'] == 'Switch':
+                n = sum(1 for g in switch_cases(x) for l in g['labels'] if l is not None and 'ELEMNAME_' in (label_name(l) or ''))
+                if n > bn:
+                    best, bn = x, n
+        return best
     se = facts.asts('StylesheetHandler::startElement')[0]
-    sw = None
-    for x in walk(se['body']):
-        if x['k'] == 'Switch' and 'xslToken' in pp(x['cond']):
-            sw = x
+    sw = token_switch(se)
     if sw is None:
         raise AnalysisBroken('StylesheetHandler::startElement: token switch not found')
     groups = switch_cases(sw)
@@ -107,9 +113,11 @@ def run(res, facts, tier):
         else:
             r2.violation(site, 'the case for xsl:%s constructs nothing%s' % (name, ' and reports an error' if 'error' in cs else ''), common.file_line(se, st[0] if st else None))
     ce = facts.asts('StylesheetConstructionContextDefault::createElement')
-    ce = [a for a in ce if any(x['k'] == 'Switch' for x in walk(a['body']))]
-    a0 = [a for a in ce if 'eElementToken' in a['params'][0]['ty'] or a['params'][0]['n'] == 'token'][0]
-    csw = [x for x in walk(a0['body']) if x['k'] == 'Switch'][0]
+    ce = [a for a in ce if token_switch(a) is not None]
+    if not ce:
+        raise AnalysisBroken('StylesheetConstructionContextDefault::createElement: no overload with a switch over element tokens')
+    a0 = max(ce, key=lambda a: sum(1 for g in switch_cases(token_switch(a)) for l in g['labels'] if l is not None))
+    csw = token_switch(a0)
     clabels = set()
     cdefault = None
     for g in switch_cases(csw):
@@ -127,7 +135,9 @@ def run(res, facts, tier):
         else:
             r2.violation(site, 'startElement asks createElement for a %s element, but createElement has no case for it: the default reports an error' % tk, common.file_line(a0))
     ptl = facts.asts('StylesheetHandler::processTopLevelElement')[0]
-    psw = [x for x in walk(ptl['body']) if x['k'] == 'Switch' and 'xslToken' in pp(x['cond'])][0]
+    psw = token_switch(ptl)
+    if psw is None:
+        raise AnalysisBroken('StylesheetHandler::processTopLevelElement: token switch not found')
     pgroups = switch_cases(psw)
     pl = {}
     for i, g in enumerate(pgroups):
